@@ -38,7 +38,7 @@ class NotASecret(Exception):
 def _pick(res, operands):
     """What a lazily evaluated branch returns: the body's value (first component of tuples); for
     assertions (None) the first operand."""
-    if isinstance(res, tuple):
+    if isinstance(res, (tuple, list)):
         res = res[0]
     if res is None:
         res = operands[0]
@@ -228,7 +228,7 @@ def _task(t):
                     st["guard1_runs"] += 1
                     want = uval
                     if real.startswith("ite") and us == "ok":
-                        w = uval[0] if (isinstance(uval, tuple) and not (len(uval) == 2 and uval[0] == "fxp")) else uval
+                        w = uval[0] if (isinstance(uval, (tuple, list)) and not (len(uval) == 2 and uval[0] == "fxp")) else uval
                         want = (("fxp", vec[0]) if kinds[0] == "F" else vec[0]) if w is None else w
                     if (r.status, r.exc) != (us, uexc):
                         report("true-guard-not-transparent", real, guards, vec,
